@@ -4,6 +4,7 @@
 package pgen
 
 import (
+	"math/rand"
 	"fmt"
 	"sort"
 	"strconv"
@@ -212,6 +213,9 @@ type Pipeline struct {
 	Ret    []Binding
 	Retain []*Exp
 	File   int
+	// PrintOrder, if it has one entry per call, is the order in which the
+	// calls are written in the pipeline body.
+	PrintOrder []int
 }
 
 type Program struct {
@@ -225,6 +229,24 @@ type Program struct {
 	FileNames   []string // names of include files
 	Comments    bool
 	Seed        int64
+}
+
+// ShuffleCallOrder makes every pipeline body list its calls in another order
+// than the dependency order they were generated in (legal MRO: the compiler
+// sorts calls by dependency): reversed, or a random permutation.
+func (p *Program) ShuffleCallOrder(seed int64) {
+	r := rand.New(rand.NewSource(seed))
+	for _, pl := range p.Pipelines {
+		n := len(pl.Calls)
+		pl.PrintOrder = make([]int, n)
+		if r.Intn(2) == 0 {
+			for i := range pl.PrintOrder {
+				pl.PrintOrder[i] = n - 1 - i
+			}
+		} else {
+			copy(pl.PrintOrder, r.Perm(n))
+		}
+	}
 }
 
 func (p *Program) Struct(name string) *Struct {
@@ -556,9 +578,16 @@ func (p *Pipeline) Print(b *strings.Builder) {
 		writeParam(b, "out", x, "    ")
 	}
 	b.WriteString(")\n{\n")
-	for _, c := range p.Calls {
-		c.Print(b, "    ")
-		b.WriteString("\n")
+	if len(p.PrintOrder) == len(p.Calls) {
+		for _, i := range p.PrintOrder {
+			p.Calls[i].Print(b, "    ")
+			b.WriteString("\n")
+		}
+	} else {
+		for _, c := range p.Calls {
+			c.Print(b, "    ")
+			b.WriteString("\n")
+		}
 	}
 	b.WriteString("    return (\n")
 	w := 0
